@@ -164,6 +164,37 @@ def qcb_structured(rng):
     return ops
 
 
+def qs_case(rng):
+    """lvalue pushes of a few recurring objects: pops waiting first (hand-over must not consume the caller's object), then the
+    same objects pushed again"""
+    base = q_structured(rng) if rng.random() < 0.6 else q_random(rng, rng.choice([6, 10, 16]), False, 0.45, 0.4)
+    return [[1, 11 + o[1] % 3] if (o and o[0] == 1 and len(o) == 2) else o for o in base]
+
+
+def qx_case(rng):
+    """pushes whose item constructor throws (negative value), issued while nobody waits; a few while somebody waits (rejected)"""
+    v = Vals()
+    ops, items, waiters = [], 0, 0
+    for _ in range(rng.choice([6, 10, 16])):
+        r = rng.random()
+        if r < 0.25 and (waiters == 0 or rng.random() < 0.15):
+            ops.append([1, -v()])
+        elif r < 0.55:
+            ops.append([1, v()])
+            if waiters: waiters -= 1
+            else: items += 1
+        elif r < 0.85:
+            ops.append([2])
+            if items: items -= 1
+            else: waiters += 1
+        elif r < 0.92:
+            ops.append([3, rng.randint(1, 9)])
+            if waiters: waiters -= 1
+        else:
+            ops.append([4])
+    return ops
+
+
 def gen_c09_seq(seed, tier):
     rng = random.Random(seed * 104729 + 9)
     n = 60 if tier == "quick" else 700
@@ -179,6 +210,9 @@ def gen_c09_seq(seed, tier):
             cases.append(Case(eng, "%s_r%d" % (eng, i), q_random(rng, L, void, bias[0], bias[1]))); i += 1
         for _ in range(max(4, n // 8)):
             cases.append(Case(eng, "%s_m%d" % (eng, i), q_malformed(rng, void))); i += 1
+    for _ in range(n):
+        cases.append(Case("qs", "qs_%d" % i, qs_case(rng))); i += 1
+        cases.append(Case("qx", "qx_%d" % i, qx_case(rng))); i += 1
     for _ in range(n):
         cases.append(Case("qcb", "qcb_s%d" % i, qcb_structured(rng))); i += 1
         cases.append(Case("qcb", "qcb_r%d" % i, qcb_random(rng, rng.choice([5, 9, 15, 24])))); i += 1
@@ -279,7 +313,7 @@ def gen_c10_seq(seed, tier):
         cases.append(Case("lq", "lq_m%d" % i, lq_malformed(rng))); i += 1
     # move-only (unique_ptr<int>, lqm) and move-observable (MoveZero: the move leaves the source empty, lqs) items pushed as
     # rvalues through the blocking path, the unblock_push path and the hand-over path
-    for eng in ("lqm", "lqs"):
+    for eng in ("lqm", "lqs", "lqv"):
         for limit in (1, 2, 3):
             for _ in range(max(6, n // 3)):
                 cases.append(Case(eng, "%s_s%d" % (eng, i), lq_structured(rng, limit))); i += 1
